@@ -42,6 +42,9 @@ type Open struct {
 	Target int    `json:"target"` // index of the listener it is meant for, -1 = none
 	Exact  bool   `json:"exact"`  // address equals the target's registration exactly
 	After  int    `json:"after"`  // sent once this many listeners are registered at the server
+	// BadOrigin (tcp): the originator address of the open is unusable
+	// (1: port above 65535, 2: not an IP address, 3: port 0)
+	BadOrigin int `json:"bad_origin,omitempty"`
 }
 
 type Scenario struct {
@@ -75,7 +78,7 @@ func gen(r *rand.Rand, prop, tier string, index int) any {
 		s.EndFirst = []string{"client-close", "server-close"}[r.IntN(2)]
 	}
 	nl := 1 + r.IntN(3)
-	hosts := []string{"127.0.0.1", "10.0.0.5", "localhost", "::1", "0.0.0.0"}
+	hosts := []string{"127.0.0.1", "10.0.0.5", "localhost", "::1", "0.0.0.0", "LocalHost"}
 	used := map[string]bool{}
 	for len(s.Listeners) < nl {
 		var l Listener
@@ -85,9 +88,9 @@ func gen(r *rand.Rand, prop, tier string, index int) any {
 		case 1:
 			l = Listener{Kind: "listentcp", Host: []string{"127.0.0.1", "10.0.0.5", "::1"}[r.IntN(3)], Port: 4000 + r.IntN(3)}
 		case 2:
-			l = Listener{Kind: "listen-unix", Path: []string{"/tmp/a.sock", "/tmp/b.sock", "/tmp/a.sock2"}[r.IntN(3)]}
+			l = Listener{Kind: "listen-unix", Path: []string{"/tmp/a.sock", "/tmp/b.sock", "/tmp/a.sock2", "/tmp/A.sock"}[r.IntN(4)]}
 		default:
-			l = Listener{Kind: "listenunix", Path: []string{"/tmp/a.sock", "/tmp/b.sock", "/tmp/a.sock2"}[r.IntN(3)]}
+			l = Listener{Kind: "listenunix", Path: []string{"/tmp/a.sock", "/tmp/b.sock", "/tmp/a.sock2", "/tmp/A.sock"}[r.IntN(4)]}
 		}
 		key := l.network() + "|" + l.addr()
 		if used[key] {
@@ -166,6 +169,15 @@ func gen(r *rand.Rand, prop, tier string, index int) any {
 			} else {
 				o.Path = o.Path[:len(o.Path)-1]
 			}
+		case 3: // the same address in another letter case (addresses are compared exactly)
+			if flipped := flipCase(l.addr()); flipped != l.addr() {
+				o.Exact = false
+				if o.Type == "tcp" {
+					o.Host = flipCase(o.Host)
+				} else {
+					o.Path = flipped
+				}
+			}
 		case 2: // other network with the same textual address
 			o.Exact = false
 			if o.Type == "tcp" {
@@ -173,6 +185,9 @@ func gen(r *rand.Rand, prop, tier string, index int) any {
 			} else {
 				o.Type, o.Host, o.Port = "tcp", l.Path, 22
 			}
+		}
+		if o.Type == "tcp" && r.IntN(12) == 0 {
+			o.BadOrigin = 1 + r.IntN(3)
 		}
 		if !o.Exact {
 			// it might still hit another listener exactly
@@ -186,6 +201,20 @@ func gen(r *rand.Rand, prop, tier string, index int) any {
 		s.Opens = append(s.Opens, o)
 	}
 	return s
+}
+
+// flipCase swaps the case of the ASCII letters of s.
+func flipCase(s string) string {
+	b := []byte(s)
+	for i, c := range b {
+		switch {
+		case c >= 'a' && c <= 'z':
+			b[i] = c - 32
+		case c >= 'A' && c <= 'Z':
+			b[i] = c + 32
+		}
+	}
+	return string(b)
 }
 
 func (o Open) addrString() string {
@@ -231,6 +260,7 @@ type run struct {
 	client     *ssh.Client
 	sconn      *ssh.ServerConn
 	openRes    []string // per open: "", "accepted", "rejected: ..."
+	openSent   []bool
 	ctl        struct{ _ int }
 	endCmd     bool // the controller is asked to end the connection
 	ended      bool
@@ -238,7 +268,7 @@ type run struct {
 
 func runHarness(c *core.Ctx, scnAny any) {
 	scn := scnAny.(*Scenario)
-	r := &run{c: c, scn: scn, openRes: make([]string, len(scn.Opens))}
+	r := &run{c: c, scn: scn, openRes: make([]string, len(scn.Opens)), openSent: make([]bool, len(scn.Opens))}
 	for range scn.Listeners {
 		r.ls = append(r.ls, &lstate{})
 	}
@@ -320,12 +350,25 @@ func (r *run) serverOpen(sconn *ssh.ServerConn, i int) {
 	var payload []byte
 	typ := "forwarded-tcpip"
 	if o.Type == "tcp" {
-		payload = ssh.Marshal(&tcpPayload{o.Host, o.Port, "203.0.113.1", uint32(10000 + i)})
+		oa, op := "203.0.113.1", uint32(10000+i)
+		switch o.BadOrigin {
+		case 1:
+			op = 70000 + uint32(i)
+		case 2:
+			oa = "not-an-address"
+		case 3:
+			op = 0
+		}
+		if o.BadOrigin != 0 {
+			rt.Fault("forward-with-unusable-originator")
+		}
+		payload = ssh.Marshal(&tcpPayload{o.Host, o.Port, oa, op})
 	} else {
 		typ = "forwarded-streamlocal@openssh.com"
 		payload = ssh.Marshal(&unixPayload{o.Path, ""})
 	}
 	rt.Event("open%d sent %s %s", i, o.Type, o.addrString())
+	r.openSent[i] = true
 	ch, rq, err := sconn.OpenChannel(typ, payload)
 	if err != nil {
 		r.openRes[i] = "rejected: " + err.Error()
@@ -522,6 +565,25 @@ func (r *run) onIdle() bool {
 				return false
 			}
 			r.c.State("acc=%d close=%v", st.accepted, st.closeErr == nil)
+		}
+		// "others are rejected": with every listener closed by now and the
+		// connection still up, each forward the server sent has been answered
+		// (accepted before the close, or rejected)
+		allClosed := r.scn.EndFirst == ""
+		for i, st := range r.ls {
+			if st.registered && (!st.closeDone || r.scn.Listeners[i].NoClose) {
+				allClosed = false
+			}
+		}
+		if allClosed {
+			for k, sent := range r.openSent {
+				if sent && r.openRes[k] == "" {
+					o := r.scn.Opens[k]
+					r.c.Violate(Prop, "forward-unanswered", "forwarded open %d for %s %q was neither delivered nor rejected: every listener has been closed, the connection is up and the system is quiescent (listeners: %s). Blocked tasks: %v", k, o.Type, o.addrString(), r.describeListeners(), r.c.Sim.Unfinished())
+					return false
+				}
+			}
+			rt.Probe("all-forwards-answered")
 		}
 		rt.Wake(&r.ctl)
 		return true
